@@ -222,7 +222,8 @@ class MTSPEnv(RL4COEnvBase):
     def _get_reward(self, td, actions=None) -> TensorDict:
         # With minmax, get the maximum distance among subtours, calculated in the model
         if self.cost_type == "minmax":
-            return td["reward"].squeeze(-1)
+            # reward has one entry per instance: keep the batch dimension also for a batch of size one
+            return td["reward"].reshape(td.batch_size)
 
         # With distance, same as TSP
         elif self.cost_type == "sum":
